@@ -107,6 +107,30 @@ def streams(tier, rng):
         return []
     yield {'name': 'printf-build', 'cases': cases, 'oracle': oracle, 'nontrivial': lambda c, o: c if len(o) > 12 else None}
 
+    # the same values through the result writers (SCPI_ResultDouble / SCPI_ResultFloat use their own stack buffers)
+    import gen as _gen
+    rcases, rinfo = [], {}
+    for b in bits[:: (2 if tier == 'quick' else 1)]:
+        c = _gen.scenario(64, 4, [(1, b'Q?', 'RD:%d' % b)], [('I', b'Q?\n')])
+        rcases.append(c)
+        rinfo[c] = ('d', b)
+        fb = f2b(b2d(b)) if (b2d(b) == b2d(b) and abs(b2d(b)) < 3e38) else (b & 0xffffffff)
+        c = _gen.scenario(64, 4, [(1, b'Q?', 'RF:%d' % fb)], [('I', b'Q?\n')])
+        rcases.append(c)
+        rinfo[c] = ('f', fb)
+
+    def roracle(case, out):
+        if out.startswith('X') or ' X' in out or case not in rinfo:
+            return []
+        k, b = rinfo[case]
+        evs = vf.events(out)
+        got = vf.outbytes(evs[:evs.index('|')] if '|' in evs else evs).decode('latin1')
+        want = (gtext(b2d(b), 15, b >> 63) if k == 'd' else gtext(b2f(b), 6, b >> 31)) + '\r\n'
+        if got != want:
+            return [('result-digits', '%s of bits %x: response %r, expected %r' % ('SCPI_ResultDouble' if k == 'd' else 'SCPI_ResultFloat', b, got, want))]
+        return []
+    yield {'name': 'result-writers', 'cases': rcases, 'model': False, 'oracle': roracle, 'nontrivial': lambda c, o: c if len(o) > 40 else None}
+
     # custom formatter
     dcases, dinfo = [], {}
     for b in bits[:: (3 if tier == 'quick' else 1)]:
